@@ -1,0 +1,20 @@
+//go:build verif && amd64
+// +build verif,amd64
+
+package gf2p16
+
+func verifGetSSSE3() bool { return hasSSSE3 }
+
+func verifSetSSSE3(v bool) bool {
+	old := hasSSSE3
+	hasSSSE3 = v
+	return old
+}
+
+func verifMulByteSliceLE(c T, in, out []byte, useSSSE3 bool) {
+	mulByteSliceLE(c, in, out, useSSSE3)
+}
+
+func verifMulAndAddByteSliceLE(c T, in, out []byte, useSSSE3 bool) {
+	mulAndAddByteSliceLE(c, in, out, useSSSE3)
+}
